@@ -5,7 +5,7 @@ from pysym.harness import run_cases
 
 LEVEL = 'exploration'
 DEDUCTIVE = []          # contract modules run by engine P for this property
-FINISH = dict(rule='see checks/b05.py RULE / run.bound entries', explanation='bounded stand-in (engine B) of the contracts of DESIGN §2 C05; '
+FINISH = dict(rule='see checks/b05.py RULE / run.bound entries', explanation='F: no memoised value read by this property\'s observables survives an edit it depends on (one obligation per covered mutator x cached key); bounded stand-in (engine B) of the contracts of DESIGN §2 C05; '
               'labelled bounded, never counted as proved', trusted_base=['CPython 3.12', 'oracles/*', 'RDKit where stated'])
 replay = make_replay('C05')
 
